@@ -98,6 +98,10 @@ class ModuleInfo:
         self.imports = {}     # local name -> ("module", modname) | ("name", modname, attr)
         self.assigns = {}     # module-level name -> [value expr,...]
         self._index()
+        self.renamed_locals = 0
+        if not os.environ.get("VERIF_NO_CANON"):
+            from .canon_names import canonise_module
+            self.renamed_locals = canonise_module(self)
 
     def _index(self):
         def walk_body(body, cls, parent, prefix, conds):
